@@ -361,6 +361,10 @@ fn inc() { p = p + 1; q.y = q.y + p; }
 ("private_init", ["private", "private_init", "finding:spv-private-init-dropped"], HDR_I + """
 var<private> p: i32 = 3;
 @compute @workgroup_size(1) fn main() { o[0] = p + a[0]; }"""),
+("module_const_composite", ["const", "finding:spv-module-composite-constant-null"], HDR_I + """
+const K = vec4<i32>(7, 65535, -1, 32);
+const A = array<i32, 2>(5, 6);
+@compute @workgroup_size(1) fn main() { let v = K; o[0] = v.y + a[0]; o[1] = K[u32(a[1]) % 4u]; o[2] = A[u32(a[1]) % 2u]; }"""),
 ("private_zero", ["private", "private_zero", "finding:spv-private-not-zeroed"], HDR_I + """
 var<private> p: i32;
 @compute @workgroup_size(1) fn main() { o[0] = p + a[0]; }"""),
